@@ -98,7 +98,7 @@ fn v(sig: &str, text: String, input: &[u8]) -> Viol {
 }
 
 /// All oracles on one valid record.
-fn check_roundtrip(rec: &Rec, r: &mut Rng) -> Result<u64, Viol> {
+pub fn check_roundtrip(rec: &Rec, r: &mut Rng) -> Result<u64, Viol> {
     let w = store::rec_to_wal(rec);
     let (bytes, n) = match guarded(|| store::crate_encode(&w)) {
         Ok(x) => x,
@@ -144,7 +144,7 @@ fn short_dec(d: &Dec) -> String {
 }
 
 /// Oracles on arbitrary bytes: total, and Ok only for a canonical encoding; agrees with the reference decoder.
-fn check_arbitrary(b: &[u8]) -> Result<bool, Viol> {
+pub fn check_arbitrary(b: &[u8]) -> Result<bool, Viol> {
     let c = crate_decode(b);
     let rf = ref_decode(b);
     match &c {
